@@ -98,7 +98,8 @@ def take(r, k):
     return out
 
 
-def rand_recurrence(rnd, m, exact=None, bounded=None, fmt=None, whole_anchor=True, maxn=6, years=None, allow24=False):
+def rand_recurrence(rnd, m, exact=None, bounded=None, fmt=None, whole_anchor=True, maxn=6, years=None, allow24=False,
+                    whole_anchor_only=True):
     fmt = fmt or rnd.choice([1, 3, 3, 4, 4])
     a = gen.rand_point(rnd, m, wide=False, whole=whole_anchor, allow24=allow24, years=years, only_years=bool(years),
                        zones=[(0, 0), (0, 0), (1, 0), (-3, -30), (5, 30), (13, 45)])
@@ -126,6 +127,9 @@ def rand_recurrence(rnd, m, exact=None, bounded=None, fmt=None, whole_anchor=Tru
             base = dict(base, prec="hms", mi=max(base["mi"], 0), ss=max(base["ss"], 0))
             desc["a"] = base
         desc["s"] = shifted(rnd, m, base, secs) if rnd.random() < 0.5 else _same_zone_shift(m, base, secs)
+        if not whole_anchor_only and rnd.random() < 0.2 and desc["s"]["prec"] == "hms" and desc["s"]["hh"] < 24:
+            # anchors a non-integral number of seconds apart (dyadic fractions: exact in binary floating point)
+            desc["s"] = dict(desc["s"], dec=rnd.choice(["5", "25", "75"]))      # (the start stays whole: see float_class)
     else:
         desc["d"] = d
     return desc
